@@ -376,6 +376,22 @@ theorem tryConsume_mono (l : Limits) (bytes : Nat) (m : Bool) :
   unfold tryConsume checkedSub
   cases m <;> cases f <;> simp <;> (repeat' split) <;> simp_all <;> omega
 
+/-- over any sequence of calls, failing ones included, no budget ever grows -/
+theorem runOps_mono (ops : List (Nat × Bool)) : ∀ l : Limits,
+    (runOps l ops).total ≤ l.total ∧ (runOps l ops).memory ≤ l.memory ∧
+    (∀ f', (runOps l ops).field = some f' → ∃ f, l.field = some f ∧ f' ≤ f) := by
+  induction ops with
+  | nil => intro l; exact ⟨Nat.le_refl _, Nat.le_refl _, fun f' h => ⟨f', h, Nat.le_refl _⟩⟩
+  | cons op rest ih =>
+    intro l
+    have h1 := tryConsume_mono l op.1 op.2
+    have h2 := ih (tryConsume l op.1 op.2).1
+    refine ⟨Nat.le_trans h2.1 h1.1, Nat.le_trans h2.2.1 h1.2.1, ?_⟩
+    intro f' hf'
+    obtain ⟨f1, hf1, hle1⟩ := h2.2.2 f' hf'
+    obtain ⟨f, hf, hle⟩ := h1.2.2 f1 hf1
+    exact ⟨f, hf, Nat.le_trans hle1 hle⟩
+
 theorem charge_charge (l : Limits) (a b : Nat) (m : Bool) :
     charge (charge l a m) b m = charge l (a + b) m := by
   obtain ⟨t, mem, f⟩ := l
